@@ -217,6 +217,8 @@ def execute(sim: Any, spec: Spec, op: dict) -> tuple[list[dict], bool]:
             sim.update_parameters(dict(op["values"]))
         elif k == "scale_parameter":
             sim.scale_parameter(op["name"], op["factor"])
+        elif k == "scale_parameters":
+            sim.scale_parameters(dict(op["factors"]))
         elif k == "update_variable":
             sim.update_variable(op["name"], op["value"])
         elif k == "update_variables":
@@ -267,6 +269,9 @@ def execute(sim: Any, spec: Spec, op: dict) -> tuple[list[dict], bool]:
         spec.params.update(op["values"])
     elif k == "scale_parameter":
         spec.params[op["name"]] = spec.params[op["name"]] * op["factor"]
+    elif k == "scale_parameters":
+        for n_, f_ in op["factors"].items():
+            spec.params[n_] = spec.params[n_] * f_
     elif k == "update_variable":
         spec.x[op["name"]] = op["value"]
     elif k == "update_variables":
